@@ -1,0 +1,14 @@
+//go:build verif
+
+package diam
+
+// VerifYield, when set by the deterministic simulation harness, is called
+// at a few scheduling points of the connection code where no lock is held,
+// so that the harness decides which goroutine proceeds. Nil by default.
+var VerifYield func(site string)
+
+func verifYield(site string) {
+	if f := VerifYield; f != nil {
+		f(site)
+	}
+}
